@@ -4,7 +4,7 @@ PROP = dict(
     level_text="Generated contents of a set field (0-14 pairs with duplicates, rows and columns as ids over up to 4 non-contiguous shards or as keys drawn from a pool with commas, "
                "double quotes, leading/trailing spaces, newlines, tabs, backslashes, Unicode and a 400-character key; all four key modes) are written with API.Import, exported with the "
                "real export command against an in-process server (every shard), and the exported bytes are imported with the real import command (buffer sizes 1, 3 and default; "
-               "with and without --sort) into an empty field of the same type in a fresh index on the same or on a second server. The export must parse as CSV into exactly the "
+               "with and without --sort) into an empty field of the same type in a fresh index on the same or on a second server; both servers also hold two decoy indexes (names sorting before and after the target) with a field of the same name but another type / other keys settings (opposite to the target in half of the cases). The export must parse as CSV into exactly the "
                "generated pairs, and after the import a second export, Rows(f) and Row(f=...) must give exactly the generated pairs again. Exploration, not proof.",
     level_note="Trusted: Go toolchain, encoding/csv as the reader of the exports, rapid. Keys containing \\r and the empty key are excluded (outside the stated key domain: Go's CSV reader "
                "normalises \\r\\n and the import command skips records whose first field is blank). Row(f=\"key\") read-back is only done for keys made of [a-z0-9 ,#=-] (PQL string "
